@@ -104,6 +104,18 @@ Lemma node_of_brk2 cx ps p0 ws oc cc b tr :
                (Some (gen_nodelist (S p0) (cs_acc (close_state ps (fst r) tr (snd r)))))).
 Proof. reflexivity. Qed.
 
+Lemma node_of_venv2 cx ps p0 ws bws name oarg text sp vn optarg :
+  get_env_spec cx name = Some sp -> sp_args sp = APLegacy (LVerbEnv vn optarg) ->
+  node_of2 cx ps p0 (VEnv2 ws bws name oarg text) =
+  let pa := p0 + length (begin_str bws name) in
+  let on := match oarg with [a] => ([node_of2 cx ps pa a], pa + ilen2 a) | _ => ([], pa) end in
+  let e := snd on + length text in
+  let bps := env_body_state ps sp in
+  Some (NEnv p0 (e + length (end_str [] name)) (ps_mode ps) name
+             (Some ((if optarg then [[91%N]] else []) ++ [[123%N]], fst on ++ [Some (mk_chars ps (snd on) e text)]))
+             (Some (gen_nodelist e (cs_acc (close_state bps cs_empty [] e))))).
+Proof. intros A B. cbn [node_of2]. rewrite A, B. reflexivity. Qed.
+
 Lemma ok_items_cons2 cx ps ex j r fh :
   ok_items2 cx ps ex (j :: r) fh = ok_item2 cx ps ex j (unparse_items2 r ++ fh) && ok_items2 cx ps ex r fh.
 Proof. reflexivity. Qed.
@@ -137,6 +149,8 @@ Fixpoint isize2 (i : item2) : nat :=
   | Par2 _ _ => 1
   | Env2 _ _ _ a b _ _ => S (fold_right (fun i n => isize2 i + n) 0 a + fold_right (fun i n => isize2 i + n) 0 b)
   | Spc2 _ _ a => S (fold_right (fun i n => isize2 i + n) 0 a)
+  | Vrb2 _ _ _ _ _ => 1
+  | VEnv2 _ _ _ oa _ => S (fold_right (fun i n => isize2 i + n) 0 oa)
   | Brk2 _ _ _ b _ => S (fold_right (fun i n => isize2 i + n) 0 b)
   | Abs2 => 1
   end.
@@ -461,6 +475,16 @@ Section Sim.
   Lemma ilen_spc2 ws chars args :
     ilen2 (Spc2 ws chars args) = length ws + length chars + length (unparse_items2 args).
   Proof. unfold ilen2, unparse_items2. cbn [unparse_item2]. rewrite !app_length. lia. Qed.
+  Lemma ilen_vrb2 ws name post dc text :
+    ilen2 (Vrb2 ws name post dc text) = length ws + 1 + length name + length post + 1 + length text + 1.
+  Proof.
+    unfold ilen2. cbn [unparse_item2]. rewrite app_length. cbn [length]. rewrite !app_length. cbn [length].
+    rewrite app_length. cbn [length]. lia.
+  Qed.
+  Lemma ilen_venv2 ws bws name oarg text :
+    ilen2 (VEnv2 ws bws name oarg text)
+    = length ws + length (begin_str bws name) + length (unparse_items2 oarg) + length text + length (end_str [] name).
+  Proof. unfold ilen2, unparse_items2. cbn [unparse_item2]. rewrite !app_length. lia. Qed.
   Lemma ilen_env2 ws bws name args b tr ews :
     ilen2 (Env2 ws bws name args b tr ews)
     = length ws + length (begin_str bws name) + length (unparse_items2 args) + length (unparse_items2 b)
@@ -580,7 +604,7 @@ Section Sim.
     assert (ENa : f_en_envs (ps_f aps) = f_en_envs (ps_f ps)) by apply en_envs_adelta.
     destruct (a_kind spc) as [sp|o c opt sp|ch sp full|d] eqn:AK.
     - (* a mandatory argument: a braced group or a single token *)
-      destruct a as [ws cs|ws b tr|ws name post margs| | | | |ws chars sargs| |]; try discriminate.
+      destruct a as [ws cs|ws b tr|ws name post margs| | | | |ws chars sargs| | | |]; try discriminate.
       + (* a single character *)
         destruct cs as [|c [|? ?]]; try discriminate.
         apply andb_true_iff in OKA. destruct OKA as [OKA IN].
@@ -684,7 +708,7 @@ Section Sim.
     - (* a delimited argument *)
       destruct o as [|oc' [|? ?]]; try (destruct a; discriminate); try (destruct a; destruct opt; discriminate).
       destruct c as [|cc' [|? ?]]; try (destruct a; discriminate); try (destruct a; destruct opt; discriminate).
-      destruct a as [| | | | | | | |ws oc cc b tr|]; try discriminate; try (destruct opt; discriminate).
+      destruct a as [| | | | | | | | | |ws oc cc b tr|]; try discriminate; try (destruct opt; discriminate).
       + (* written *)
         assert (OKA' : N.eqb oc oc' && N.eqb cc cc' && delim_ok oc cc && (sp || is_nil ws) && ws_ok ws && ws_ok tr
                        && ok_items2 cx aps [oc; cc] b (tr ++ cc :: fa) = true) by (destruct opt; exact OKA).
@@ -724,7 +748,7 @@ Section Sim.
         * rewrite ENa in AB. apply (absent_no_err pa oc'). apply (peek_absent cx ps s pa fa oc' SD SK SPO AB).
     - (* a marker character *)
       destruct ch as [|ch [|? ?]]; try (destruct a; discriminate).
-      destruct a as [ws cs| | | | | | | | |]; try discriminate.
+      destruct a as [ws cs| | | | | | | | | | |]; try discriminate.
       + (* written *)
         destruct cs as [|c [|? ?]]; try discriminate.
         apply andb_true_iff in OKA. destruct OKA as [OKA WA].
@@ -768,7 +792,7 @@ Section Sim.
   Lemma ok_arg_len ps spc a fa : ok_arg2 cx ps spc a fa = true -> is_abs a = false -> 1 <= ilen2 a.
   Proof.
     unfold ok_arg2. intros H NA.
-    destruct a as [ws cs|ws b tr|ws name post margs| | | | |ws chars sargs|ws oc cc b tr|]; try discriminate NA;
+    destruct a as [ws cs|ws b tr|ws name post margs| | | | |ws chars sargs| | |ws oc cc b tr|]; try discriminate NA;
       try (destruct (a_kind spc) as [?|[|? [|? ?]] [|? [|? ?]] [|] ?|[|? [|? ?]] ? ?|?]; discriminate H).
     - destruct (a_kind spc) as [?|[|? [|? ?]] [|? [|? ?]] [|] ?|[|? [|? ?]] ? ?|?]; try discriminate H;
         (destruct cs as [|c [|? ?]]; try discriminate H; unfold ilen2; cbn [unparse_item2]; rewrite app_length; cbn; lia).
@@ -827,7 +851,7 @@ Section Sim.
     intros IH i ex cps ps o st pos fol k r SZ F OK NR OKI SK H.
     pose proof F as [SD _]. pose proof (std_view_of cx ps SD) as V.
     destruct i as [ws cs|ws b tr|ws name post args|ws mk b tr|ws text post|ws mid|ws bws name args b tr ews
-                   |ws chars args|ws oc cc b tr|]; cycle 4.
+                   |ws chars args|ws name post dc text|ws bws name oarg text|ws oc cc b tr|]; cycle 4.
     - (* comment *)
       cbn [ok_item2] in OKI. apply andb_true_iff in OKI. destruct OKI as [OKI PO].
       apply andb_true_iff in OKI. destruct OKI as [W NT]. apply negb_true_iff in NT.
@@ -1000,6 +1024,185 @@ Section Sim.
         rewrite ilen_spc2 in H.
         replace (pos + (length ws + length (c :: cr) + length (unparse_items2 args)))
           with (pe + length (unparse_items2 args)) in H by (unfold pe, p0; lia). exact H.
+    - (* the verbatim macro *)
+      cbn [ok_item2] in OKI.
+      apply andb_true_iff in OKI. destruct OKI as [OKI NT]. apply negb_true_iff in NT.
+      apply andb_true_iff in OKI. destruct OKI as [OKI SPD]. apply negb_true_iff in SPD.
+      apply andb_true_iff in OKI. destruct OKI as [OKI FO].
+      apply andb_true_iff in OKI. destruct OKI as [OKI GSb].
+      apply andb_true_iff in OKI. destruct OKI as [OKI NM].
+      apply andb_true_iff in OKI. destruct OKI as [W Wp].
+      destruct (get_macro_spec cx name) as [sp|] eqn:GS; [|discriminate].
+      destruct (sp_args sp) as [l|[|? ?]] eqn:SA; try discriminate.
+      set (p0 := pos + length ws).
+      set (pe := p0 + 1 + length name + length post).
+      assert (SK' : skipn pos s = ws ++ 92%N :: name ++ post ++ dc :: text ++ dc :: fol).
+      { cbn [unparse_item2] in SK. rewrite <- !app_assoc in SK. cbn [app] in SK.
+        rewrite <- !app_assoc in SK. cbn [app] in SK. rewrite <- !app_assoc in SK. exact SK. }
+      assert (T : impl_peek cps s pos = TokOk (Tokenizer.mk TkMacro name p0 pe ws post)).
+      { rewrite (frame_peek1 cx ex cps ps s pos ws 92%N _ F SK' W space_92 (frame_ex_special cx ex cps ps 92%N F eq_refl)).
+        apply (mac_tok ps pos ws name post (dc :: text ++ dc :: fol) SD W Wp NM FO SK'). }
+      assert (SKe : skipn pe s = dc :: text ++ dc :: fol).
+      { pose proof (skipn_shift _ _ _ _ SK') as SK0.
+        change (92%N :: name ++ post ++ dc :: text ++ dc :: fol)
+          with ([92%N] ++ name ++ post ++ dc :: text ++ dc :: fol) in SK0.
+        apply skipn_shift in SK0. apply skipn_shift in SK0. apply skipn_shift in SK0.
+        cbn [length] in SK0. exact SK0. }
+      pose proof (rule_tlegacy_verb s cx 0 ps pe dc text fol SKe SPD NT) as L.
+      pose proof (rule_tcall_legacy_macro s cx 1 ps name p0 pe post sp LVerbMacro _ _ SA L) as C.
+      cbn [absorb_item2 item_ws2 node_of2] in H. fold p0 in H.
+      replace (p0 + 1 + length name + length post + 1) with (S pe) in H by (unfold pe; lia).
+      replace (S pe + length text + 1) with (S (S pe + length text)) in H by lia.
+      set (N0 := k + 2).
+      apply (lift (S N0)); [|exact NR|rewrite ilen_vrb2; unfold N0; lia].
+      eapply (rule_callF s cx N0 cps ps o st pos ws TkMacro name pe post sp _ _ r OK
+                (or_introl (conj eq_refl GS)) T).
+      + apply (lift _ N0) in C; [exact C|discriminate|unfold N0; lia].
+      + apply (lift _ N0) in H; [|exact NR|unfold N0; lia].
+        rewrite ilen_vrb2 in H.
+        replace (pos + (length ws + 1 + length name + length post + 1 + length text + 1))
+          with (S (S pe + length text)) in H by (unfold pe, p0; lia). exact H.
+    - (* a verbatim environment *)
+      destruct (get_env_spec cx name) as [sp|] eqn:GS;
+        [|cbn [ok_item2] in OKI; rewrite GS, andb_false_r in OKI; discriminate].
+      destruct (sp_args sp) as [l|[|vn optarg]] eqn:SA;
+        try (cbn [ok_item2] in OKI; rewrite GS, SA, andb_false_r in OKI; discriminate).
+      cbn [ok_item2] in OKI. rewrite GS, SA in OKI. cbn zeta in OKI.
+      apply andb_true_iff in OKI. destruct OKI as [OKI OA].
+      apply andb_true_iff in OA. destruct OA as [OA OO].
+      apply andb_true_iff in OA. destruct OA as [VN FS].
+      apply andb_true_iff in OKI. destruct OKI as [OKI EN].
+      apply andb_true_iff in OKI. destruct OKI as [OKI NM].
+      apply andb_true_iff in OKI. destruct OKI as [W WB].
+      apply pe_str_eqb_eq in VN. subst vn.
+      set (endc := end_str [] name) in *.
+      destruct (find_sub (text ++ endc ++ fol) endc) as [fk|] eqn:FSE; [|discriminate].
+      apply Nat.eqb_eq in FS. subst fk.
+      fold (ok_items2 cx) in OO.
+      cbn [isize2] in SZ. fold (lsize2 oarg) in SZ.
+      set (bps := env_body_state ps sp) in *.
+      set (p0 := pos + length ws).
+      set (pa := p0 + length (begin_str bws name)).
+      set (FB := text ++ endc ++ fol) in *.
+      assert (SK' : skipn pos s = ws ++ begin_str bws name ++ unparse_items2 oarg ++ FB).
+      { unfold FB, unparse_items2. cbn [unparse_item2] in SK. rewrite <- !app_assoc in SK. exact SK. }
+      pose proof (skipn_shift _ _ _ _ SK') as SK0. fold p0 in SK0.
+      pose proof (skipn_shift _ _ _ _ SK0) as SKa. fold pa in SKa.
+      assert (SK'' : skipn pos s = ws ++ 92%N :: env_kw true ++ bws ++ 123%N :: name ++ 125%N
+                                      :: (unparse_items2 oarg ++ FB)).
+      { rewrite SK'. unfold begin_str, env_kw. cbn [app]. rewrite <- !app_assoc. cbn [app].
+        rewrite <- !app_assoc. reflexivity. }
+      assert (T : impl_peek cps s pos = TokOk (Tokenizer.mk TkBeginEnv name p0 pa ws [])).
+      { rewrite (frame_peek1 cx ex cps ps s pos ws 92%N _ F SK'' W space_92 (frame_ex_special cx ex cps ps 92%N F eq_refl)).
+        rewrite (impl_peek_dispatch ps s pos ws 92%N _ W SK'' space_92). fold p0.
+        rewrite (dispatch_env cx ps V s p0 ws true bws name _ (skipn_shift _ _ _ _ SK'') EN WB NM).
+        unfold pa. rewrite len_begin_str. cbn [env_tok env_kw kw_begin length]. f_equal. unfold Tokenizer.mk. f_equal. lia. }
+      set (pt := pa + length (unparse_items2 oarg)).
+      pose proof (skipn_shift _ _ _ _ SKa) as SKt. fold pt in SKt.
+      set (on := match oarg with [a] => ([node_of2 cx ps pa a], pa + ilen2 a) | _ => ([], pa) end).
+      set (N1 := 4 + 8 * length (unparse_items2 oarg)).
+      (* the optional argument *)
+      assert (OPT : snd on = pt /\
+                (if optarg
+                 then match nth_error s pa with
+                      | Some c => if is_space c then [[91%N]] = [[91%N]] /\ fst on = [None] /\ pt = pa
+                                  else exists nd, parse_content false (R N1 (TGroup ps (GDPair [91%N] [93%N]) true false pa))
+                                                  = Ok (ONode nd) pt /\ [[91%N]] = [[91%N]] /\ fst on = [nd]
+                      | None => False
+                      end
+                 else @nil str = [] /\ fst on = [] /\ pt = pa)).
+      { destruct oarg as [|a [|a2 oarg']];
+          [| |destruct a as [| | | | | | | | | |[|? ?] ? ? ? ?|]; discriminate OO].
+        - destruct optarg; [discriminate|]. unfold on, pt. cbn [unparse_items2 flat_map length fst snd].
+          repeat split; lia.
+        - destruct a as [| | | | | | | | | |bw oc cc b tr|]; try discriminate OO.
+          + (* written *)
+            destruct bw; [|discriminate].
+            apply andb_true_iff in OO. destruct OO as [OO OKB].
+            apply andb_true_iff in OO. destruct OO as [OO Wt].
+            apply andb_true_iff in OO. destruct OO as [OO E2].
+            apply andb_true_iff in OO. destruct OO as [OPTT E1].
+            apply N.eqb_eq in E1. apply N.eqb_eq in E2. subst oc cc. rewrite OPTT.
+            cbn [lsize2 fold_right isize2] in SZ. fold (lsize2 b) in SZ.
+            assert (SKb : skipn pa s = [] ++ 91%N :: unparse_items2 b ++ tr ++ 93%N :: FB).
+            { rewrite SKa. unfold unparse_items2. cbn [flat_map unparse_item2 app]. rewrite ?app_nil_r.
+              rewrite <- ?app_assoc. cbn [app]. rewrite <- ?app_assoc. cbn [app]. rewrite <- ?app_assoc. reflexivity. }
+            pose proof (brk_run2 n IH ps pa [] 91%N 93%N b tr FB true false SD eq_refl ltac:(lia) eq_refl eq_refl Wt OKB SKb) as G.
+            cbn [length] in G. rewrite Nat.add_0_r in G.
+            assert (LB : length (unparse_items2 [Brk2 [] 91%N 93%N b tr]) = 1 + length (unparse_items2 b) + length tr + 1).
+            { replace (unparse_items2 [Brk2 [] 91%N 93%N b tr]) with (unparse_item2 (Brk2 [] 91%N 93%N b tr))
+                by (unfold unparse_items2; cbn [flat_map]; rewrite app_nil_r; reflexivity).
+              fold (ilen2 (Brk2 [] 91%N 93%N b tr)). rewrite ilen_brk2. cbn [length]. lia. }
+            split; [unfold on, pt; cbn [snd]; rewrite LB, ilen_brk2; cbn [length]; lia|].
+            rewrite (nth_error_of_skipn _ _ _ _ SKb). change (is_space 91) with false. cbv iota.
+            exists (node_of2 cx ps pa (Brk2 [] 91%N 93%N b tr)). split; [|split; reflexivity].
+            rewrite (lift _ N1 _ _ G); [|discriminate|unfold N1; rewrite LB; lia].
+            cbn [parse_content]. f_equal. unfold pt. rewrite LB. lia.
+          + (* absent *)
+            apply andb_true_iff in OO. destruct OO as [OPTT AB]. rewrite OPTT.
+            assert (PT : pt = pa) by (unfold pt; cbn [unparse_items2 flat_map unparse_item2 app length]; lia).
+            assert (SKb : skipn pa s = FB) by (rewrite SKa; reflexivity).
+            split; [unfold on; cbn [snd]; unfold ilen2; cbn [unparse_item2 length]; lia|].
+            assert (NEF : exists c r, FB = c :: r).
+            { unfold FB, endc, end_str. destruct text; cbn [app]; eauto. }
+            destruct NEF as (c & r0 & EFB). rewrite EFB in SKb. rewrite (nth_error_of_skipn _ _ _ _ SKb).
+            destruct (is_space c) eqn:SC.
+            * repeat split. exact PT.
+            * exists None. split; [|split; reflexivity].
+              assert (AB' : absent_ok (f_en_envs (ps_f ps)) 91 FB = true).
+              { apply orb_true_iff in AB. destruct AB as [AB|AB]; [|exact AB].
+                exfalso. assert (HD : hd_error (text ++ endc) = Some c).
+                { unfold FB in EFB. destruct text as [|t0 text']; cbn [app] in EFB |- *.
+                  - unfold endc, end_str in EFB |- *. cbn [app] in EFB |- *. injection EFB as <- _. reflexivity.
+                  - injection EFB as <- _. reflexivity. }
+                rewrite HD in AB. cbn [otest] in AB. congruence. }
+              rewrite <- EFB in SKb.
+              pose proof (peek_absent_brk cx ps 91%N 93%N s pa FB SD eq_refl SKb AB') as PA.
+              assert (N1E : N1 = 4) by (unfold N1; cbn [unparse_items2 flat_map unparse_item2 app length]; lia).
+              rewrite N1E.
+              rewrite (rule_tgroup_absent s cx 3 ps 91%N 93%N false pa PA). rewrite PT. reflexivity. }
+      destruct OPT as [ON OPT].
+      (* the end code *)
+      set (e := pt + length text).
+      assert (PTL : pt <= length s).
+      { destruct (Nat.le_gt_cases pt (length s)) as [L|L]; [exact L|].
+        rewrite skipn_all2 in SKt by lia. unfold FB, endc, end_str in SKt. destruct text; discriminate SKt. }
+      assert (FE : sfind s ([92;101;110;100;123]%N ++ name ++ [125%N]) pt = Some e).
+      { unfold sfind, find_from. assert (L : Nat.ltb (length s) pt = false) by (apply Nat.ltb_ge; lia).
+        rewrite L, SKt. change ([92;101;110;100;123]%N ++ name ++ [125%N]) with endc. rewrite FSE. reflexivity. }
+      pose proof (rule_tlegacy_venv s cx N1 ps name optarg pa (if optarg then [[91%N]] else []) (fst on) pt e) as L.
+      assert (LA : R (S N1) (TLegacyArgs ps (LVerbEnv name optarg) pa)
+                   = Ok (OArgs (Some ((if optarg then [[91%N]] else []) ++ [[123%N]],
+                                      fst on ++ [Some (mk_chars ps pt e text)]))) e).
+      { assert (SL : slice s pt e = text).
+        { unfold slice, e. rewrite SKt. replace (pt + length text - pt) with (length text) by lia.
+          unfold FB. apply firstn_len_app. }
+        rewrite <- SL. apply L; [|exact FE]. destruct optarg; [|exact OPT].
+        destruct (nth_error s pa) as [c|]; [|exact OPT]. destruct (is_space c); exact OPT. }
+      (* the (empty) body and [\end{name}] *)
+      assert (SDb : Std cx bps) by (apply std_env_body; exact SD).
+      assert (ENb : f_en_envs (ps_f bps) = true) by (unfold bps; rewrite en_envs_env_body; exact EN).
+      assert (SKe : skipn e s = unparse_items2 [] ++ [] ++ end_str [] name ++ fol).
+      { pose proof (skipn_shift _ _ _ _ SKt) as X. fold e in X. exact X. }
+      pose proof (env_body_run2 n IH bps e [] [] [] name fol SDb ENb ltac:(cbn; lia) eq_refl eq_refl NM eq_refl SKe) as B.
+      cbn [unparse_items2 flat_map length absorb2 fst] in B. rewrite !Nat.add_0_r in B. cbn [Nat.add] in B.
+      set (N0 := k + 6 + 8 * length (unparse_items2 oarg)).
+      apply (lift _ N0) in LA; [|discriminate|unfold N0, N1; lia].
+      apply (lift _ N0) in B; [|discriminate|unfold N0; lia].
+      pose proof (rule_tcall_legacy_env s cx N0 ps name p0 pa sp _ _ _ _ _ SA LA B) as C.
+      cbn [absorb_item2 item_ws2] in H. fold p0 in H.
+      rewrite (node_of_venv2 cx ps p0 ws bws name oarg text sp name optarg GS SA) in H. cbn zeta in H.
+      fold pa on bps in H. rewrite ON in H. fold e in H. fold endc in H.
+      pose proof (len_begin_str bws name) as LB. pose proof (len_end_str [] name) as LE. fold endc in LE.
+      apply (lift (S (S N0))); [|exact NR|rewrite ilen_venv2; fold endc; unfold N0; lia].
+      eapply (rule_callF s cx (S N0) cps ps o st pos ws TkBeginEnv name pa [] sp _ _ r OK
+                (or_intror (or_introl (conj eq_refl GS))) T).
+      + exact C.
+      + apply (lift _ (S N0)) in H; [|exact NR|unfold N0; lia].
+        rewrite ilen_venv2 in H. fold endc in H.
+        replace (pos + (length ws + length (begin_str bws name) + length (unparse_items2 oarg) + length text + length endc))
+          with (e + length endc) in H by (unfold e, pt, pa, p0; lia).
+        exact H.
     - (* a delimited argument is not an item *) discriminate.
     - (* an absent argument is not an item *) discriminate.
     - (* text *)
